@@ -1394,8 +1394,10 @@ fn checked_modulo(a: i64, b: i64) -> Option<i64> {
 
 /// The modulo
 pub fn modulo() -> impl Function {
+    // A null divisor is out of the domain: the remainder is not defined there
+    let divisor = data_type::Integer::from_interval(i64::MIN, -1).union_interval(1, i64::MAX);
     Pointwise::new(
-        data_type::Struct::from_data_types(&[DataType::integer(), DataType::integer()]).into(),
+        data_type::Struct::from_data_types(&[DataType::integer(), DataType::from(divisor)]).into(),
         DataType::integer(),
         Arc::new(|ab| {
             let ab = value::Struct::try_from(ab)?;
